@@ -37,7 +37,7 @@ class Uniform(Distribution):
             if isinstance(diff, (list, tuple, np.ndarray)): 
                 v= np.prod(diff)
             else:
-                v = diff
+                v = diff**self.dim # scalar bounds are broadcast over all dim components
             return_val = np.log(1.0/v)
         return return_val
 
